@@ -11,6 +11,76 @@ fn classify(c: &CaseInfo) -> Option<String> {
     None
 }
 
+/// Order statistics of integers that f64 cannot tell apart (|v| > 2^53, neighbours one apart): the
+/// alphabet type of the explorer is f64, so these cannot be written as words; instead the translation
+/// relation is checked, which needs no oracle: arg-extrema and ranks depend on the order only, so
+/// f(base + x) == f(x) exactly, and min / max commute with the translation (output element i64).
+mod bigint {
+    use mc_adapt::roll::*;
+    use mc_checks::*;
+    use tevec::prelude::*;
+
+    pub fn check_word(word: &[u8], ctx: &mut Ctx) {
+        let fam = "translation-bigint";
+        ctx.fam(fam).states += 1;
+        ctx.nontrivial(fam, hash_bytes(word));
+        // symbols: 0 = null, 1..=3 = offsets 0, 1, 2
+        let small: Vec<Option<i64>> = word.iter().map(|s| if *s == 0 { None } else { Some(*s as i64 - 1) }).collect();
+        let len = small.len();
+        for (bname, base) in [("2^60", 1i64 << 60), ("-2^60", -(1i64 << 60)), ("i64::MAX-2", i64::MAX - 2)] {
+            let big: Vec<Option<i64>> = small.iter().map(|v| v.map(|o| base + o)).collect();
+            let mut fns: Vec<R1> = vec![R1::Argmin, R1::Argmax];
+            for pct in [false, true] {
+                for rev in [false, true] {
+                    fns.push(R1::Rank { pct, rev });
+                }
+            }
+            for w in 1..=len + 1 {
+                for mp in [Some(0), Some(1), Some(w)] {
+                    for &f in &fns {
+                        let a = catch(|| call_v1::<Vec<Option<i64>>, Option<i64>, Vec<f64>, f64>(f, &small, w, mp, Path::Ret).cells());
+                        let b = catch(|| call_v1::<Vec<Option<i64>>, Option<i64>, Vec<f64>, f64>(f, &big, w, mp, Path::Ret).cells());
+                        ctx.eval(fam, outcome_hash(&b));
+                        ctx.transitions += 1;
+                        let same = matches!((&a, &b), (Outcome::Ok(x), Outcome::Ok(y)) if cells_eq(x, y, exact_eq));
+                        if !same {
+                            ctx.violation(Violation {
+                                entry: format!("translation:{}", r1_name(f, true)),
+                                finding: None,
+                                size: len * 100 + w,
+                                case: json!({"family": fam, "word": word, "offsets": small, "base": bname, "w": w, "mp": mp_json(mp)}),
+                                expected: format!("as on the offsets alone: {}", show_outcome(&a)),
+                                got: show_outcome(&b),
+                            });
+                        }
+                    }
+                    // min / max with an integer output: translated by exactly `base`
+                    for f in [R1::Min, R1::Max] {
+                        let a = catch(|| call_v1::<Vec<Option<i64>>, Option<i64>, Vec<Option<i64>>, Option<i64>>(f, &small, w, mp, Path::Ret));
+                        let b = catch(|| call_v1::<Vec<Option<i64>>, Option<i64>, Vec<Option<i64>>, Option<i64>>(f, &big, w, mp, Path::Ret));
+                        ctx.evals += 1;
+                        ctx.transitions += 1;
+                        let same = match (&a, &b) {
+                            (Outcome::Ok(x), Outcome::Ok(y)) => x.len() == y.len() && (0..x.len()).filter(|i| x[*i].map(|v| v + base) != y[*i]).next().is_none(),
+                            _ => false,
+                        };
+                        if !same {
+                            ctx.violation(Violation {
+                                entry: format!("translation:{}", r1_name(f, true)),
+                                finding: None,
+                                size: len * 100 + w,
+                                case: json!({"family": fam, "word": word, "offsets": small, "base": bname, "w": w, "mp": mp_json(mp)}),
+                                expected: format!("{base} + {a:?}"),
+                                got: format!("{b:?}"),
+                            });
+                        }
+                    }
+                }
+            }
+        }
+    }
+}
+
 fn fns() -> Vec<R1> {
     let mut v = V1_CMP.to_vec();
     v.extend(V1_NORM);
@@ -94,9 +164,14 @@ fn main() {
         let mut ctx = Ctx::new();
         let case = &stored["case"];
         let fam_name = case["family"].as_str().unwrap_or("");
+        if fam_name == "translation-bigint" {
+            bigint::check_word(&syms_from_json(&case["word"]), &mut ctx);
+        }
         for f in [&ties, &ties_m, &perms, &big] {
             if fam_name.starts_with(&f.name) {
-                if case["trace"].is_string() {
+                if case["shape"].is_string() {
+                    check_structured(f, !run.quick(), 2, &mut ctx);
+                } else if case["trace"].is_string() {
                     traces(&run, f, &mut ctx);
                 } else {
                     f.check_word(&syms_from_json(&case["word"]), &mut ctx);
@@ -116,9 +191,16 @@ fn main() {
         perms.check_word(w, ctx);
     });
     total.merge(c);
+    // translation relation on integers beyond 2^53
+    let bw = all_words_upto(4, run.pick(4, 6));
+    total.merge(par_items(&bw, run.threads, |w, ctx| {
+        ctx.states += 1;
+        bigint::check_word(w, ctx);
+    }));
     let mut t = Ctx::new();
     traces(&run, &ties, &mut t);
     total.merge(t);
+    total.merge(check_structured_par(&ties, !run.quick(), 2, run.threads));
     let meta = Meta {
         rule: "history tree over the tie-heavy alphabet {null,0,1,2} (every word), every order type (all permutations of 1..=l with nulls at every subset of <=2 positions), an extreme-value alphabet (i32 MIN/MAX), de Bruijn long trace; every window 1..=len+2, every min_periods 0..=w (omitted for len>=w), every output position compared with a scan of the window. Exact comparison for min/max/arg/rank. Non-trivial = word with a non-null element.".into(),
         bounds: json!({
